@@ -422,7 +422,7 @@ func checkBytes(ctx *ev.Ctx, e *entry, data []byte, mustReject string) {
 		// A count far beyond what the input can hold. A decoder that hands it to make() either panics
 		// (count*elemsize > max alloc) or reserves count*elemsize bytes - possibly a fatal out-of-memory,
 		// which cannot be observed safely. So the allocation behaviour is measured on a probe: the same
-		// input with that count lowered to at most 2^18 (still unsatisfiable); only if the probe's
+		// input with that count lowered to at most 2^16 (still unsatisfiable); only if the probe's
 		// allocation is in proportion to the input is the original executed.
 		if !probeAlloc(ctx, e, data, ref) {
 			return
@@ -498,10 +498,10 @@ func checkBytes(ctx *ev.Ctx, e *entry, data []byte, mustReject string) {
 	}
 }
 
-const probeCount = 1 << 18
+const probeCount = 1 << 16
 
 // probeAlloc decodes data with the unsatisfiable element count found by the reference parser
-// lowered to min(count, 2^18) and measures the heap bytes allocated. It reports whether the
+// lowered to min(count, 2^16) and measures the heap bytes allocated. It reports whether the
 // original input may be executed.
 func probeAlloc(ctx *ev.Ctx, e *entry, data []byte, ref refResult) bool {
 	pc := ref.hzCnt
